@@ -53,6 +53,7 @@ type c20World struct {
 	w     *l2World
 	r     *core.Run
 	nodes []*c20Node
+	free  lanes.FreeLaneMatchHandler // one handler instance for the node's lifetime, as an application has
 }
 
 func ratOf(s string) *big.Rat {
@@ -86,6 +87,7 @@ func newC20(r *core.Run) *c20World {
 	c := &c20World{r: r}
 	c.w = newL2World(r, p)
 	c.nodes = append(c.nodes, &c20Node{n: c.w.n, db: c.w.db, prices: np, checkSeq: 1})
+	c.free = lanes.NewFreeLaneMatchHandler(authcodec.NewBech32Codec(sdk.GetConfig().GetBech32AccountAddrPrefix()), c.w.n.OK)
 	extra := 1 + r.Intn(2)
 	for i := 0; i < extra; i++ {
 		pp, ps := genPrices(r)
@@ -332,6 +334,9 @@ func (c *c20World) genRelayTx(i int) c20Tx {
 		sender = w.outsider
 		seqs = []uint64{next}
 	}
+	if len(seqs) > 1 && r.Chance(1, 2) {
+		seqs[0], seqs[len(seqs)-1] = seqs[len(seqs)-1], seqs[0] // e.g. a fresh deposit before a stale one
+	}
 	var msgs []sdk.Msg
 	for _, s := range seqs {
 		msgs = append(msgs, w.depositMsg(w.m, s, sender))
@@ -367,6 +372,10 @@ func (c *c20World) checkLanes() *core.Violation {
 	w := c.w
 	own := []string{"C20"}
 	ctx := w.n.QueryCtx()
+	if r.Chance(1, 3) {
+		// the context a block proposer has: state of the last committed block, height of the next one
+		ctx = ctx.WithBlockHeight(w.n.Height() + 1)
+	}
 	exec := w.executors[0]
 	mkOracle := func() sdk.Msg { return &opchildtypes.MsgUpdateOracle{Sender: exec, Height: 5, Data: []byte{1}} }
 	mkExec := func(inner ...sdk.Msg) sdk.Msg {
@@ -430,8 +439,7 @@ func (c *c20World) checkLanes() *core.Violation {
 			wantFree = true
 		}
 	}
-	fh := lanes.NewFreeLaneMatchHandler(authcodec.NewBech32Codec(sdk.GetConfig().GetBech32AccountAddrPrefix()), w.n.OK)
-	gotFree := fh.MatchHandler()(ctx, tx)
+	gotFree := c.free.MatchHandler()(ctx, tx)
 	if gotFree != wantFree {
 		return w.fail(mismatch{"lane.free", "free-lane-whitelist", own, fmt.Sprintf("free lane match = %v, want %v (payer %s granter %s whitelist %v)", gotFree, wantFree, feePayer, granter, w.m.Params.FeeWhitelist)})
 	}
